@@ -41,6 +41,9 @@ TEXT = {
  "C04": ("deterministic simulation with enumerated crash points: every cut offset x end condition x trailers of recorded exchanges, plus failure of the k-th write",
          "Fault enumeration: every byte offset of every explored body (bounded size) x every end condition is delivered to the real client / handler; 'terminator arrived' is computed by the independent reference codec from the delivered prefix. Exchanges are sampled by seed.",
          "5 C04"),
+ "C06": ("deterministic simulation with a byzantine server node behind HTTPClient.Do; oracle: termination, no panic, coded non-zero errors, HTTP status mapping, case-insensitive lookups",
+         "Seeded search over hostile responses; honest note: the deciding power is the byzantine peer's seeded generation, the simulator adds termination/hang detection on the fake clock, segmentation and timing of the hostile bytes, and attribution of panics on the library's own goroutine.",
+         "5 C06"),
 }
 
 hooks_commits = subprocess.run(["git", "-C", "/repo", "log", "--format=%H", "--grep=^verif:"], capture_output=True, text=True).stdout.split()
